@@ -475,3 +475,67 @@ T("C06", "twin-keys-cache-by-request-undecided", C2, REC,
   "                    if http not in self.metadata_cache:\n"
   "                        self.metadata_cache[http] = BeaconKeys(*derive_aes_hmac_keys(metadata.aes_rand))\n"
   "                    self.beacon_keys = self.metadata_cache[http]\n")
+
+# ================================================================================ wave 8: table-driven checks, R10, R11
+# ---- R2 / R8: the magic test as a predicate function / a table of checks (the unrolled table leaves a call of a
+# single-expression package function: summarised by argument binding; a predicate that is not a single expression, or a
+# table the loader does not unroll, is not located: undecided, silent)
+MAGIC_IF = ("    if metadata.magic != 0xBEEF:\n        raise ValueError(f\"Invalid metadata magic, got {metadata.magic:08x}, expected 0xbeef\")\n"
+            "    return metadata\n")
+T("C06", "twin-magic-predicate-lambda-table", C2, None, None, edits=[
+    (C2, DEC_DEF, "_CHECKS = ((lambda m: m.magic == 0xBEEF, \"Invalid metadata magic, got {0.magic:08x}\"),)\n\n\n" + DEC_DEF),
+    (C2, MAGIC_IF, "    for accept, template in _CHECKS:\n        if not accept(metadata):\n            raise ValueError(template.format(metadata))\n    return metadata\n")])
+T("C06", "twin-magic-predicate-function-direct", C2, None, None, edits=[
+    (C2, DEC_DEF, "def _magic_mismatch(parsed, wanted=0xBEEF):\n    return wanted != parsed.magic\n\n\n_BAD_MAGIC = _magic_mismatch\n\n\n" + DEC_DEF),
+    (C2, MAGIC_IF, "    if _BAD_MAGIC(metadata):\n        raise ValueError(f\"Invalid metadata magic, got {metadata.magic:08x}, expected 0xbeef\")\n    return metadata\n")])
+T("C06", "twin-magic-predicate-multi-statement-undecided", C2, None, None, edits=[
+    (C2, DEC_DEF, "def _has_magic(parsed):\n    for want in (0xBEEF,):\n        if parsed.magic == want:\n            return True\n    return False\n\n\n_HAS_MAGIC = _has_magic\n\n\n" + DEC_DEF),
+    (C2, MAGIC_IF, "    if not _HAS_MAGIC(metadata):\n        raise ValueError(f\"Invalid metadata magic, got {metadata.magic:08x}, expected 0xbeef\")\n    return metadata\n")])
+# the predicate of the table tests the wrong constant / is inverted: located through the summary, violated
+M("C06", "magic-predicate-table-wrong-constant", C2, None, None, "C06.R2", edits=[
+    (C2, DEC_DEF, "def _has_beacon_magic(m):\n    return m.magic == 0xBEEE\n\n\n_CHECKS = ((_has_beacon_magic, \"Invalid metadata magic, got {0.magic:08x}\"),)\n\n\n" + DEC_DEF),
+    (C2, MAGIC_IF, "    for accept, template in _CHECKS:\n        if not accept(metadata):\n            raise ValueError(template.format(metadata))\n    return metadata\n")])
+M("C06", "magic-predicate-table-lost-negation", C2, None, None, "C06.R2", edits=[
+    (C2, DEC_DEF, "def _has_beacon_magic(m):\n    return m.magic == 0xBEEF\n\n\n_CHECKS = ((_has_beacon_magic, \"Invalid metadata magic, got {0.magic:08x}\"),)\n\n\n" + DEC_DEF),
+    (C2, MAGIC_IF, "    for accept, template in _CHECKS:\n        if accept(metadata):\n            raise ValueError(template.format(metadata))\n    return metadata\n")])
+
+# ---- R10: partial operations on the free-form info field on the accept path of decrypt_metadata
+RETM = "        raise ValueError(f\"Invalid metadata magic, got {metadata.magic:08x}, expected 0xbeef\")\n    return metadata\n"
+RETM_HEAD = "        raise ValueError(f\"Invalid metadata magic, got {metadata.magic:08x}, expected 0xbeef\")\n"
+M("C06", "accept-path-indexes-split-info", C2, RETM,
+  RETM_HEAD + "    parts = metadata.info.split(b\"\\t\")\n    logger.debug(\"check-in of %r\", parts[1])\n    return metadata\n", "C06.R10")
+M("C06", "accept-path-strict-decode-info", C2, RETM,
+  RETM_HEAD + "    logger.debug(\"check-in: %s\", metadata.info.decode())\n    return metadata\n", "C06.R10")
+M("C06", "accept-path-first-byte-of-info", C2, RETM,
+  RETM_HEAD + "    info = metadata.info.strip()\n    if info[0] == 0:\n        logger.debug(\"binary info\")\n    return metadata\n", "C06.R10")
+M("C06", "accept-path-unpack-rsplit-star", C2, RETM,
+  RETM_HEAD + "    *_rest, user, process = metadata.info.rsplit(b\"\\t\", 2)\n    logger.debug(\"%r %r\", user, process)\n    return metadata\n", "C06.R10")
+# total uses of the info field, a caught failure, partition (always three parts): silent
+T("C06", "twin-accept-path-total-uses-of-info", C2, RETM,
+  RETM_HEAD + "    computer, _sep, rest = metadata.info.partition(b\"\\t\")\n    first = metadata.info.split(b\"\\t\")[0]\n"
+  "    logger.debug(\"check-in of %r %r %r %s\", computer, first, metadata.info[:8], metadata.info.decode(errors=\"replace\"))\n    return metadata\n")
+T("C06", "twin-accept-path-unpack-caught", C2, RETM,
+  RETM_HEAD + "    try:\n        computer, user, process = metadata.info.split(b\"\\t\")\n    except ValueError:\n        computer = user = process = b\"?\"\n"
+  "    logger.debug(\"%r %r %r\", computer, user, process)\n    return metadata\n")
+T("C06", "twin-accept-path-unpack-guarded-undecided", C2, RETM,
+  RETM_HEAD + "    if metadata.info.count(b\"\\t\") == 2:\n        computer, user, process = metadata.info.split(b\"\\t\")\n"
+  "        logger.debug(\"%r %r %r\", computer, user, process)\n    return metadata\n")
+
+# ---- R11: the derivation must not depend on the content of the seed
+M("C06", "derive-refuses-constant-seed", C2, DER,
+  "    if aes_random == b\"\\x00\" * 16:\n        raise ValueError(\"aes_random not initialised\")\n" + DER, "C06.R11")
+M("C06", "from-metadata-all-bytes-guard-returns-none", C2, FBM,
+  "        if metadata.aes_rand is not None and all(metadata.aes_rand):\n            return None\n" + FBM, "C06.R11")
+M("C06", "from-aes-rand-asserts-any-seed-byte", C2, FAR,
+  "        if len(aes_rand) == 16:\n            assert any(aes_rand), \"aes_rand not set\"\n" + FAR, "C06.R11")
+# the same assertion where reaching it depends on other arguments: not decided, silent
+T("C06", "twin-init-asserts-any-seed-byte-undecided", C2, INIT,
+  "            assert any(aes_rand)\n" + INIT)
+# shape tests of the seed (None / empty / length / type), a content test that only logs: silent
+T("C06", "twin-seed-shape-tests", C2, FBM,
+  "        seed = metadata.aes_rand\n        if seed is None or not seed or len(seed) != 16 or not isinstance(seed, bytes):\n"
+  "            raise ValueError(\"BeaconMetadata has no 16 byte aes_rand\")\n        return cls.from_aes_rand(seed, iv=iv)\n")
+T("C06", "twin-seed-content-test-only-logs", C2, FBM,
+  "        if not any(metadata.aes_rand):\n            logger.debug(\"all-zero aes_rand\")\n" + FBM)
+T("C06", "twin-seed-content-test-unrecognised-undecided", C2, FBM,
+  "        if metadata.aes_rand.count(0) > 16:\n            raise ValueError(\"impossible\")\n" + FBM)
